@@ -237,6 +237,9 @@ class Analyzer:
                                  f'argument {i} of the donating call {e.func.id}() is ' + (
                                      'created in this function' if ok else
                                      "reachable from an argument or a free variable: the caller's buffers would be deleted")))
+    if isinstance(e.func, ast.Name) and e.func.id in ('hash', 'id') and e.func.id not in self.locals:
+      # hash() of str / bytes is salted per process (PYTHONHASHSEED), id() is an address
+      self.nondet.append((e.lineno, e.func.id + '()'))
     if isinstance(e.func, ast.Name):
       fn = e.func.id
       if fn == 'next' and e.args:
